@@ -65,14 +65,14 @@ Record region := RG { rg_addr : N; rg_size : N }.
 Record gregion := GR { gr_map : region; gr_base : N }.
 
 (* ------------------------------------------------------------------ pointer arithmetic *)
-(* `ptr.add(n)` / `ptr.offset(n as isize)` on *mut u8.  The address computation must not
-   overflow and n must fit an isize (language UB otherwise).  rustc 1.95 checks exactly this
-   precondition at run time in builds with debug assertions (non-unwinding panic = abort);
-   without them the hardware result is the wrapped sum.  Site 9001 marks that abort. *)
-Definition UB_SITE : N := 9001.
-Definition ptr_add (m : mode) (a n : N) : outcome N :=
-  if (n <=? ISZ_MAX) && (a + n <? W64) then Val (a + n)
-  else match m with Debug => Panic UB_SITE | Release => Val ((a + n) mod W64) end.
+(* `ptr.add(n)` / `ptr.offset(n as isize)` on *mut u8.  The language requires that the address
+   computation does not overflow and that n fits an isize (undefined behaviour otherwise); the
+   toolchain of this image (rustc 1.95) inserts no run-time check for it, neither with nor
+   without debug assertions (probed: `(2^64-16 as *mut u8).add(32)` yields 16 in both profiles),
+   so what the code does is the wrapped sum.  [ptr_add_defined] names the language
+   precondition; Proofs/C01.v shows it holds on every path from a valid parent. *)
+Definition ptr_add (a n : N) : N := (a + n) mod W64.
+Definition ptr_add_defined (a n : N) : Prop := n <= ISZ_MAX /\ a + n < W64.
 (* `ptr.wrapping_offset(n as isize)`: two's complement sum, never UB *)
 Definition ptr_wrapping_offset (a n : N) : N := (a + n) mod W64.
 
@@ -108,7 +108,7 @@ Definition vs_offset (m : mode) (s : vslice) (count : N) : outcome (vresult vsli
       match checked_sub (vs_size s) count with               (* :521-524 *)
       | None => Val (Err (EOutOfBounds new_addr))
       | Some new_size =>
-          let* p := ptr_add m (vs_addr s) count in           (* self.addr.add(count) :529 *)
+          let p := ptr_add (vs_addr s) count in              (* self.addr.add(count) :529 *)
           Val (Ok (VS p new_size))
       end
   end.
@@ -118,7 +118,7 @@ Definition vs_subslice (m : mode) (s : vslice) (offset count : N) : outcome (vre
   match compute_end_offset (vs_len s) offset count with      (* :495 *)
   | Err e => Val (Err e)
   | Ok _ =>
-      let* p := ptr_add m (vs_addr s) offset in              (* self.addr.add(offset) :501 *)
+      let p := ptr_add (vs_addr s) offset in                 (* self.addr.add(offset) :501 *)
       Val (Ok (VS p count))
   end.
 
@@ -230,7 +230,7 @@ Definition va_to_slice (m : mode) (a : varr) : outcome vslice :=
 Definition va_ref_at (m : mode) (a : varr) (index : N) : outcome vref :=
   let* _ := passert 1135 (index <? va_nelem a) in             (* assert!(index < self.nelem) *)
   let* byteofs := pmul m 1140 (va_element_size a) index in    (* (element_size * index) as isize *)
-  let* p := ptr_add m (va_addr a) byteofs in                  (* self.addr.offset(byteofs) :1141 *)
+  let p := ptr_add (va_addr a) byteofs in                     (* self.addr.offset(byteofs) :1141 *)
   Val (VR p (va_esz a)).
 
 (* ------------------------------------------------------------------ ByteValued, bytes.rs *)
@@ -258,7 +258,7 @@ Definition mr_get_slice_unix (m : mode) (r : region) (offset count : N) : outcom
   match compute_end_offset (mr_len r) offset count with      (* unix.rs:407 *)
   | Err e => Val (Err e)
   | Ok _ =>
-      let* p := ptr_add m (rg_addr r) offset in              (* self.addr.add(offset) unix.rs:414 *)
+      let p := ptr_add (rg_addr r) offset in                 (* self.addr.add(offset) unix.rs:414 *)
       Val (Ok (VS p count))
   end.
 (* mmap/xen.rs:365-392 (the MmapInfo passed along is not geometry) *)
@@ -266,7 +266,7 @@ Definition mr_get_slice_xen (m : mode) (r : region) (offset count : N) : outcome
   match compute_end_offset (mr_len r) offset count with      (* xen.rs:370 *)
   | Err e => Val (Err e)
   | Ok _ =>
-      let* p := ptr_add m (rg_addr r) offset in              (* self.as_ptr().add(offset) xen.rs:384 *)
+      let p := ptr_add (rg_addr r) offset in                 (* self.as_ptr().add(offset) xen.rs:384 *)
       Val (Ok (VS p count))
   end.
 Definition mr_get_slice := mr_get_slice_unix.
